@@ -91,9 +91,15 @@ Definition provided_account (c : case) : option N :=
   | AccErr => None
   end.
 
-(* the account the duty ended up with: Prepare's, or the hand-made one *)
+(* the account the duty carries into Propose: the one it had, unless Prepare got a (one-entry)
+   answer from the accounts provider, which then replaces it *)
 Definition duty_account (c : case) : option N :=
-  if c_prepare c then provided_account c else d_account (c_duty c).
+  if c_prepare c then
+    match e_accounts (c_env c) with
+    | AccOk m => if Nat.eqb (length m) 1 then lookup_account (d_validator (c_duty c)) m else d_account (c_duty c)
+    | AccErr => d_account (c_duty c)
+    end
+  else d_account (c_duty c).
 
 Definition duty_epoch (c : case) : N := d_slot (c_duty c) / c_spe (c_cfg c).
 
@@ -239,13 +245,14 @@ Definition some_call_answered (c : case) : bool :=
 Definition no_relay_no_submit (c : case) : bool :=
   negb (proposal_blinded c) || some_call_answered c || negb (is_some (o_submit (c_obs c))).
 
-(* the duty as Propose sees it is complete *)
-Definition duty_ready (c : case) : bool :=
-  if c_prepare c then c_prep_ok c
-  else negb (d_randao (c_duty c) =? 0) && match d_account (c_duty c) with Some _ => true | None => false end.
-
+(* the RANDAO reveal the duty carries into Propose: the one it had, unless Prepare succeeded *)
 Definition randao_of (c : case) : N :=
-  if c_prepare c then match e_sig_randao (c_env c) with Some s => s | None => 0 end else d_randao (c_duty c).
+  if c_prepare c && c_prep_ok c
+  then match e_sig_randao (c_env c) with Some s => s | None => 0 end
+  else d_randao (c_duty c).
+
+(* the duty as Propose sees it is complete *)
+Definition duty_ready (c : case) : bool := is_some (duty_account c).
 
 (* 6. graffiti and auction failures do not skip the proposal: the beacon node is asked for a block
       of the duty's slot, with the graffiti obtained or none; and a good local block is signed and
